@@ -2,7 +2,7 @@
 From Coq Require Extraction.
 From Coq Require Import ExtrOcamlBasic.
 From SQ Require Import lib.Base.
-From SQ Require model.Rtt model.Loss model.Pto model.Recovery model.PcComp.
+From SQ Require model.Rtt model.Loss model.Pto model.Recovery model.PcComp model.RecoveryAcks.
 Extraction Language OCaml.
 
 Definition loss_run := Loss.run.
@@ -16,4 +16,5 @@ Definition pc_judge := PcComp.judge.
 Definition manager_run := Recovery.run.
 Definition manager_judge := Recovery.judge.
 Definition manager_tol_judge := Recovery.judge_tol.
-Extraction "../ocaml/gen/C09/model.ml" loss_run loss_judge rtt_run rtt_judge pto_run pto_judge pc_run pc_judge manager_run manager_judge manager_tol_judge.
+Definition manager_acks_judge := RecoveryAcks.judge_acks.
+Extraction "../ocaml/gen/C09/model.ml" loss_run loss_judge rtt_run rtt_judge pto_run pto_judge pc_run pc_judge manager_run manager_judge manager_tol_judge manager_acks_judge.
